@@ -17,6 +17,7 @@ from .net import SimNet
 _frozen = False
 
 
+
 class HangDetected(BaseException):
     pass
 
